@@ -2616,11 +2616,16 @@ func (s *swamp) CloneAndDeleteExpiredTreasures(howMany int32) ([]treasure.Treasu
 	shiftedTreasures := s.expirationTimeBeaconASC.ShiftExpired(int(howMany))
 
 	// delete the shifted treasures from the other indexes
+	claimed := shiftedTreasures[:0]
 	for _, d := range shiftedTreasures {
 		// delete the treasure from the beaconKey
 		// A lejárt treasureok esetében mindig valódi törlést végzünk és nem csak "törölt" flaggel jelöljük meg a treasuret
-		s.deleteHandler(d.GetKey(), false)
+		// (a record that another request deleted first is not handed out as well)
+		if s.deleteHandler(d.GetKey(), false) != nil {
+			claimed = append(claimed, d)
+		}
 	}
+	shiftedTreasures = claimed
 
 	// destroy the swamp if there is no treasure in it
 	remainingCount := s.beaconKey.Count()
@@ -2696,9 +2701,14 @@ func (s *swamp) CloneAndDeleteMatchingTreasures(beaconType BeaconType, order Bea
 
 	// Drop shifted treasures from every sibling index — same as
 	// CloneAndDeleteExpiredTreasures. Permanent delete (shadowDelete=false).
+	claimed := shiftedTreasures[:0]
 	for _, d := range shiftedTreasures {
-		s.deleteHandler(d.GetKey(), false)
+		// a record that another request deleted first is not handed out as well
+		if s.deleteHandler(d.GetKey(), false) != nil {
+			claimed = append(claimed, d)
+		}
 	}
+	shiftedTreasures = claimed
 
 	// Auto-destroy on empty, mirroring CloneAndDeleteExpiredTreasures.
 	if s.beaconKey.Count() == 0 {
